@@ -4,7 +4,7 @@ NEXT GStop
 INVARIANT Emit
 CHECK_DEADLOCK FALSE
 CONSTANTS
- Fix = {}
+ Fix = {"mergeToken", "cloneTransport"}
  MGroup = {"user", "pass", "token", "helper", "expire"}
  MVals = 3
  MValsB = 3
